@@ -27,6 +27,38 @@ def strain(rng, scale=0.1):
     return [round(rng.uniform(-scale, scale), 5) for _ in range(6)]
 
 
+def cancelling_case(rng, mod):
+    """a strain whose shear component (almost) cancels the obliquity term of the reference cell, so that an off-diagonal element of the strained B passes through
+    zero: located by bisection on the module's own epsilon_to_b, then placed 1e-12 .. 1e-5 (relative) beside the root"""
+    for _ in range(20):
+        c = G.valid_cell(rng, oblique=False)
+        e = [round(rng.uniform(-0.05, 0.05), 5) for _ in range(6)]
+        idx, (i, j) = rng.choice([(1, (0, 1)), (4, (1, 2)), (2, (0, 2))])
+
+        def f(x):
+            e2 = list(e)
+            e2[idx] = x
+            return float(np.asarray(mod.epsilon_to_b(e2, c))[i, j])
+        lo, hi = -0.1, 0.1
+        flo, fhi = f(lo), f(hi)
+        if not (flo * fhi < 0):
+            continue
+        for _it in range(70):
+            mid = 0.5 * (lo + hi)
+            fm = f(mid)
+            if fm == 0:
+                lo = hi = mid
+                break
+            if fm * flo < 0:
+                hi = mid
+            else:
+                lo, flo = mid, fm
+        x = 0.5 * (lo + hi)
+        e[idx] = x * (1 + rng.choice([-1, 1]) * 10 ** rng.uniform(-12, -5.3)) if x != 0 else 10 ** rng.uniform(-12, -6)
+        return c, e
+    return G.valid_cell(rng, oblique=False), strain(rng)
+
+
 def pre_build(ctx):
     tr = ctx.gen.get('trace')
     if not tr:
@@ -95,6 +127,8 @@ def search(ctx):
                 U = G.rotation(ctx.rng)
                 c = G.valid_cell(ctx.rng, oblique=ctx.rng.random() < 0.8) if ctx.rng.random() < 0.8 else G.special_cell(ctx.rng)
                 e = strain(ctx.rng) if i % 7 else [0.0] * 6
+                if i % 9 == 4:
+                    c, e = cancelling_case(ctx.rng, mod)
                 try:
                     why, tag = check(mod, kappa, U, c, e)
                 except Exception as ex:
